@@ -365,7 +365,7 @@ def run(rep):
         raise AnalysisError("gis/grid.py: delineate_area call site not found")
     for pn in ("idxcells_area", "buffer1", "buffer2"):
         v = s.args.get(pn)
-        rep.check(v is not None and v[1].init == ("const", -1) and v[1].fresh, "R06.b", "gis/grid.py", "delineate_area", f"`{pn}` initialised to -1", f"init {v[1].init if v else None}", line=s.call.lineno)
+        xlayer.check_init(rep, v, ("const", -1), "R06.b", "gis/grid.py", "delineate_area", f"`{pn}` initialised to -1", s.call.lineno)
     f = s.func
     # the inlets of THIS call: without an argument the kernel gets no inlet, not the inlets an earlier call left on the object
     try:
@@ -407,9 +407,12 @@ def run(rep):
         caps.append(sym)
     reassigned = [n for n in ast.walk(f) if isinstance(n, (ast.Assign, ast.AugAssign)) and any(isinstance(t, ast.Name) and t.id in params and t.id in caps
                                                                                                for t in (n.targets if isinstance(n, ast.Assign) else [n.target]))]
-    rep.check(len(set(caps)) == 1 and caps[0] in params and not reassigned, "R06.d", "gis/grid.py", "delineate_area",
-              "buffer capacity is the caller's size parameter itself (the kernel needs one spare slot: it is never clipped to the grid size)",
-              f"parameter reassigned at line {reassigned[0].lineno}" if reassigned else f"buffer lengths {caps}", line=f.lineno)
+    cons_cap = "buffer capacity is the caller's size parameter itself (the kernel needs one spare slot: it is never clipped to the grid size)"
+    if any(c_ is None for c_ in caps) and not reassigned:
+        rep.undecided("R06.d", "gis/grid.py", "delineate_area", cons_cap, f"length of a buffer is not tracked by the shape evaluator: {caps}", line=f.lineno)
+    else:
+        rep.check(len(set(caps)) == 1 and caps[0] in params and not reassigned, "R06.d", "gis/grid.py", "delineate_area", cons_cap,
+                  f"parameter reassigned at line {reassigned[0].lineno}" if reassigned else f"buffer lengths {caps}", line=f.lineno)
     rep.check(ast.unparse(s.args["flowdircode"][0]) == "FLOWDIRCODE" if "flowdircode" in s.args else False, "R06.a", "gis/grid.py", "delineate_area", "kernel receives the FLOWDIRCODE table", "", line=s.call.lineno)
     for shim in ("upstream", "downstream", "delineate_river", "delineate_flowpathlengths_in_catchment"):
         for s2 in by.get(shim, []):
